@@ -1220,6 +1220,34 @@ def systematic_closures(natives: List[str]) -> List[Tuple[str, dict]]:
 
 
 
+def cyclic_closures() -> List[dict]:
+    """Import graphs with cycles.  Legal closures: parse_file registers a file in included_files BEFORE it reads it, so a
+    file that is still being parsed is not entered again - each file is read exactly once and the closure compiles.
+    expect="accept": a rejection of one of these is a violation by itself (well-formed by construction)."""
+    S0 = ("struct", "S0", F(("q", "uint16", ("lit", 2)), ("r", "int32", None)))
+    T0 = ("struct", "T0", F(("a", "int8", None), ("b", "double", None)))
+    out = []
+
+    def add(tag, files):
+        out.append(dict(tag="cyclic:" + tag, cl=dict(files=files, auto_pad=True, import_coredefs=False), coq=True, expect="accept"))
+    add("file imports itself", [dict(path="root.yaml", imports=[0], items=[S0, ("msg", "M1", 901, F(("x", "S0", None)))])])
+    add("a <-> b", [dict(path="root.yaml", imports=[1], items=[("msg", "M1", 901, F(("x", "S0", None), ("y", "T0", None)))]),
+                    dict(path="a.yaml", imports=[2], items=[T0]),
+                    dict(path="b.yaml", imports=[1], items=[S0])])
+    add("root -> shared/types.yaml -> ../root.yaml", [
+        dict(path="root.yaml", imports=[1], items=[("const", "N", ("lit", 3)), ("msg", "M1", 901, F(("x", "S0", ("ref", "N"))))]),
+        dict(path="shared/types.yaml", imports=[0], items=[S0, ("alias", "A16", "int16")])])
+    add("cycle with a diamond", [
+        dict(path="root.yaml", imports=[1, 2], items=[("msg", "M1", 901, F(("x", "S0", None), ("y", "T0", None), ("z", "U0", None)))]),
+        dict(path="left/a.yaml", imports=[3], items=[T0]),
+        dict(path="right/b.yaml", imports=[3, 0], items=[("struct", "U0", F(("u", "S0", ("lit", 2))))]),
+        dict(path="common/base.yaml", imports=[1], items=[S0])])
+    add("imported file imports itself and the root", [
+        dict(path="defs/root.yaml", imports=[1], items=[("msg", "M1", 901, F(("x", "S0", None))), ("msg", "SG", 902, None)]),
+        dict(path="defs/inc/a.yaml", imports=[1, 0, 1], items=[S0, ("mid", "D1", 21), ("hid", "H1", 11)])])
+    return out
+
+
 def diagnose(fam, cases: List[str], timeout: int = 600) -> List[int]:
     """which component differs, per case (0 = agree); -1 = could not evaluate"""
     if not cases:
